@@ -19,6 +19,7 @@ mod rng;
 mod scen;
 mod scen_bits;
 mod scen_bytes;
+mod scen_events;
 mod spec;
 mod typist;
 mod world;
@@ -60,6 +61,8 @@ fn scenario(id: &str) -> Option<Box<dyn Scenario>> {
         "C01" => Box::new(Bytes { prop: BProp::C01 }),
         "C02" => Box::new(Bytes { prop: BProp::C02 }),
         "C07" => Box::new(Bytes { prop: BProp::C07 }),
+        "C04" => Box::new(scen_events::Events { prop: scen_events::EProp::C04 }),
+        "C14" => Box::new(scen_events::Events { prop: scen_events::EProp::C14 }),
         "C05" => Box::new(scen_bits::Bits { prop: scen_bits::WProp::C05 }),
         "C06" => Box::new(scen_bits::Bits { prop: scen_bits::WProp::C06 }),
         _ => return None,
